@@ -30,6 +30,7 @@ type c27Env struct {
 	dbOwner   string
 	daemons   int
 	sigs      []chan os.Signal
+	bound     map[string]bool // daemons that created a socket of their own
 }
 
 type c27Sock struct {
@@ -72,7 +73,7 @@ func (l *c27Listener) Close() error {
 	l.queue = nil
 	if e, ok := l.env.entries[l.path]; ok {
 		if e.inode != l.inode {
-			vsched.Logf("FOREIGN-UNLINK %s closing its listener unlinked socket inode %d created by %s", l.owner, e.inode, e.creator)
+			vsched.Logf("FOREIGN-UNLINK:its-own-socket-had-been-replaced %s closing its listener unlinked socket inode %d created by %s", l.owner, e.inode, e.creator)
 		}
 		delete(l.env.entries, l.path)
 	}
@@ -114,7 +115,11 @@ func c27Install(env *c27Env, scratch string) {
 		}
 		who := vsched.Tag()
 		if strings.HasPrefix(who, "daemon") && e.creator != who {
-			vsched.Logf("FOREIGN-UNLINK %s removed socket inode %d created by %s", who, e.inode, e.creator)
+			how := "its-own-socket-had-been-replaced"
+			if !env.bound[who] {
+				how = "it-never-bound-a-socket"
+			}
+			vsched.Logf("FOREIGN-UNLINK:%s %s removed socket inode %d created by %s", how, who, e.inode, e.creator)
 		}
 		if strings.HasPrefix(who, "shell") && e.ln != nil && !e.ln.closed {
 			vsched.Logf("note: %s removed the socket of the live %s", who, e.creator)
@@ -128,6 +133,10 @@ func c27Install(env *c27Env, scratch string) {
 			return nil, &net.OpError{Op: "listen", Net: network, Err: &os.SyscallError{Syscall: "bind", Err: syscall.EADDRINUSE}}
 		}
 		env.nextInode++
+		if env.bound == nil {
+			env.bound = map[string]bool{}
+		}
+		env.bound[vsched.Tag()] = true
 		ln := &c27Listener{env: env, path: path, owner: vsched.Tag(), inode: env.nextInode}
 		env.entries[path] = &c27Sock{inode: env.nextInode, creator: vsched.Tag(), ln: ln}
 		return ln, nil
@@ -292,11 +301,11 @@ func c27Oracle(sc c27Scen) func(r *vsched.Result) [][2]string {
 		for _, l := range r.Log {
 			switch {
 			case strings.HasPrefix(l, "FOREIGN-UNLINK"):
-				add("daemon-removed-a-socket-it-did-not-create", l)
+				add("daemon-removed-a-socket-it-did-not-create:"+strings.Fields(l)[0][len("FOREIGN-UNLINK:"):], l)
 			case strings.Contains(l, "daemon-has-no-database"):
-				add("activated-on-daemon-without-database", l)
+				add("activated-on-daemon-without-database:socket-initially-"+sc.initial, l)
 			case strings.Contains(l, "later-call failed"):
-				if !seen["activated-on-daemon-without-database"] {
+				if !seen["activated-on-daemon-without-database:socket-initially-"+sc.initial] {
 					add("daemon-stopped-serving-a-connected-client", l)
 				}
 			case strings.Contains(l, " still on "):
